@@ -122,8 +122,11 @@ def make_case(seed: int, stream: int):
                 return got + (kinds[stream],)
     wmc = stream % 3 == 2
     twins = stream % 6 == 1     # same-named externs in unrelated namespaces behind two ports
+    # where the multi-client port stands among the provides ports is cycled, not left to chance
     gen, ent, enc, info = cfggen.gen_shell_case(rng, want_multiclient=wmc, hostile_text=True,
-                                                mc_shape=stream // 3, twins=twins)
+                                                mc_shape=stream // 3, twins=twins,
+                                                mc_position=['first', 'middle', 'last'][(stream // 3) % 3]
+                                                if wmc else None)
     if twins:
         enc['provides'] = {'sts': 'NONE', 'mts': 'ALL'}
         enc['requires'] = {'sts': 'NONE', 'mts': 'ALL'}
